@@ -85,6 +85,46 @@ Proof.
   - intros ->. split; [exact Hin|reflexivity].
 Qed.
 
+(* every residue-graph edge is realised by a bond or reported, never both (with the bond exhibited) *)
+Theorem realised_or_reported mol rs res_edges ea eb ra rb :
+  find_res rs ea = Some ra -> find_res rs eb = Some rb ->
+  ResGraphInv mol ra -> ResGraphInv mol rb -> (forall x, In x (r_nodes ra) -> ~ In x (r_nodes rb)) ->
+  In (ea, eb) res_edges ->
+  ((exists u v, In u (r_nodes ra) /\ In v (r_nodes rb) /\ adjacent mol u v) /\ ~ In (ea, eb) (missing mol rs res_edges)) \/
+  (In (ea, eb) (missing mol rs res_edges) /\ forall u v, In u (r_nodes ra) -> In v (r_nodes rb) -> ~ adjacent mol u v).
+Proof.
+  intros Ha Hb Ia Ib Hd Hin.
+  pose proof (missing_iff_no_atom_edge mol rs res_edges ea eb ra rb Ha Hb Ia Ib Hd Hin) as Hiff.
+  destruct (connecting mol ra rb) as [|[u v] rest] eqn:E.
+  - right. assert (Hno : forall u v, In u (r_nodes ra) -> In v (r_nodes rb) -> ~ adjacent mol u v)
+      by (apply (connecting_spec mol ra rb Ia Ib Hd); exact E).
+    split; [apply Hiff; exact Hno|exact Hno].
+  - left. assert (Hin' : In (u, v) (connecting mol ra rb)) by (rewrite E; left; reflexivity).
+    unfold connecting in Hin'. apply in_flat_map in Hin'. destruct Hin' as (u' & Hu' & Hin').
+    apply in_map_iff in Hin'. destruct Hin' as (v' & Euv & Hv'). injection Euv as <- <-.
+    apply filter_In in Hv'. destruct Hv' as [Hv' He]. apply filter_In in Hu'. apply filter_In in Hv'.
+    apply has_edge_spec in He. split.
+    + exists u', v'. tauto.
+    + intros Hm. destruct Hiff as [Hfw _]. apply (Hfw Hm u' v'); tauto.
+Qed.
+
+Lemma filter_len {A} (f : A -> bool) (l : list A) : (List.length (filter f l) <= List.length l)%nat.
+Proof. induction l as [|a r IH]; cbn [filter List.length]; [lia|]. destruct (f a); cbn [List.length]; lia. Qed.
+
+(* the records follow the residue-graph edges: a sub-sequence in edge order, one per edge *)
+Theorem missing_shape mol rs res_edges :
+  (forall e, In e (missing mol rs res_edges) -> In e res_edges) /\
+  (NoDup res_edges -> NoDup (missing mol rs res_edges)) /\
+  (List.length (missing mol rs res_edges) <= List.length res_edges)%nat /\
+  (forall a b, missing mol rs (a ++ b) = missing mol rs a ++ missing mol rs b)%list.
+Proof.
+  unfold missing. repeat split.
+  - intros e He. apply filter_In in He. tauto.
+  - intros Hn. apply NoDup_filter. exact Hn.
+  - apply filter_len.
+  - intros a b. apply filter_app.
+Qed.
+
 Example ex_missing :
   let rs := [{| r_key := 0; r_nodes := [0; 1]; r_edges := [(0, 1)] |}; {| r_key := 1; r_nodes := [2]; r_edges := [] |};
              {| r_key := 2; r_nodes := [3]; r_edges := [] |}] in
